@@ -34,10 +34,12 @@ META = dict(
          "packrat_lr_exclusive + packrat_lr_never_both + parse_selector_follows_packrat (each setter refuses while the "
          "other mode is on unless force=True; never both on, and _parse is the caching function exactly while packrat is "
          "on, after any history), enablePackrat_idempotent/_twice, users_untouched (no setting change and no context "
-         "entry/exit touches an existing user expression). PARTIAL: default_ws_scope_partial speaks about the "
-         "whiteChars/copyDefaultWhiteChars attributes (new expressions, copies, composites over existing expressions, "
-         "built-ins, existing user expressions); that these attributes decide what an expression skips is checked on the "
-         "real parser by the oracle only. live_builtins_restored_though_unsynced: the pristine built-in line_start (own "
+         "entry/exit touches an existing user expression). PARTIAL: default_ws_scope_partial and forward_ws_scope_partial speak about "
+         "the whiteChars/copyDefaultWhiteChars attributes (new expressions incl. MatchFirst/Or and Forward(), copies, "
+         "And/Group/Opt/... composites over existing expressions, `fwd <<= e` taking over e's set AND flag so that later "
+         "copies of the Forward follow the default, copies of unassigned Forwards, built-ins, existing user "
+         "expressions); that these attributes decide what an expression skips is checked on the real parser by the "
+         "oracle only (every parsable user expression at the end of every history, and the ws-behaviour battery). live_builtins_restored_though_unsynced: the pristine built-in line_start (own "
          "set differs from the default) is changed inside and restored on exit (finding fixed by /repo e056afa). "
          "Cache/memo contents are not settings and are not modelled.",
     note="Trusted: Lean kernel; axioms propext/Classical.choice/Quot.sound; the Settings transcription (tied to /repo by "
@@ -65,6 +67,7 @@ THEOREMS = [NS + t for t in (
     "users_untouched",
     "new_expr_after_exit",
     "default_ws_scope_partial",
+    "forward_ws_scope_partial",
 )]
 
 GEN_REL = "PPProofs/Props/Gen/Settings.lean"
@@ -101,6 +104,7 @@ class World:
             diag={n: getattr(self.diag, n) for n in self.diag._all_names},
             compat={n: getattr(self.compat, n) for n in self.compat._all_names},
             builtins=[(set(e.whiteChars), e.copyDefaultWhiteChars, e.skipWhitespace) for e in bl],
+            builtins_fwd_empty=[_fwd_empty(pp, e) for e in bl],
         )
         self.reset_world()
 
@@ -141,6 +145,10 @@ class World:
                 return i
         self.objs.append(o)
         return len(self.objs) - 1
+
+
+def _fwd_empty(pp, e):
+    return isinstance(e, pp.Forward) and e.expr is None
 
 
 def _b(v):
@@ -190,8 +198,8 @@ def snapshot(W: World):
         _b(PE._packratEnabled), [cid, ck], ps, _b(PE._left_recursion_enabled), [mid, mk],
         [[n, _b(getattr(W.diag, n, None))] for n in W.diag._all_names],
         [[n, _b(getattr(W.compat, n, None))] for n in W.compat._all_names],
-        [[_wsset(e), _b(e.copyDefaultWhiteChars)] for e in W.builtins],
-        [[_wsset(e), _b(e.copyDefaultWhiteChars)] for e in W.users],
+        [[_wsset(e), _b(e.copyDefaultWhiteChars), _fwd_empty(pp, e)] for e in W.builtins],
+        [[_wsset(e), _b(e.copyDefaultWhiteChars), _fwd_empty(pp, e)] for e in W.users],
         len(W.objs),
     ]
 
@@ -216,15 +224,21 @@ def obs(snap):
 
 
 def _new_user_expr(W, variant):
+    """a fresh expression matching "ab": four leaf kinds, or MatchFirst / Or over an existing expression
+    (these take no whitespace over from their alternatives)"""
     pp = W.pp
-    k = variant % 4
+    k = variant % 6
+    if k >= 4 and W.users:
+        e = W.users[variant % len(W.users)]
+        return pp.MatchFirst([e, pp.Literal("zz")]) if k == 4 else pp.Or([e, pp.Literal("zz")])
+    k %= 4
     if k == 0:
         return pp.Word("ab")
     if k == 1:
-        return pp.Literal("a")
+        return pp.Literal("ab")
     if k == 2:
-        return pp.Regex("a+")
-    return pp.Keyword("if")
+        return pp.Regex("ab+")
+    return pp.CaselessLiteral("ab")
 
 
 def apply_op(W: World, op, variant=0):
@@ -269,13 +283,24 @@ def apply_op(W: World, op, variant=0):
             elif k == "copy":
                 if op[1] < len(W.users):
                     e = W.users[op[1]]
-                    W.users.append(e() if alt else e.copy())
+                    v = variant % 3
+                    W.users.append(e.copy() if v == 0 else e() if v == 1 else e("name"))
             elif k == "wrap":
                 if op[1] < len(W.users):
                     e = W.users[op[1]]
-                    v = variant % 5
-                    W.users.append(pp.Group(e) if v == 0 else e + pp.Literal("z") if v == 1 else pp.Suppress(e)
-                                   if v == 2 else pp.OneOrMore(e) if v == 3 else pp.Opt(e))
+                    v = variant % 6
+                    W.users.append(pp.Group(e) if v == 0 else pp.And([e, pp.Empty()]) if v == 1 else pp.Suppress(e)
+                                   if v == 2 else pp.OneOrMore(e) if v == 3 else pp.Opt(e) if v == 4
+                                   else pp.ZeroOrMore(e))
+            elif k == "newfwd":
+                W.users.append(pp.Forward())
+            elif k == "fwdassign":
+                i, j = op[1], op[2]
+                if i < len(W.users) and j < len(W.users) and i != j and isinstance(W.users[i], pp.Forward):
+                    if alt:
+                        W.users[i] << W.users[j]
+                    else:
+                        W.users[i] <<= W.users[j]
             elif k == "exprws":
                 if op[1] < len(W.users):
                     e = W.users[op[1]]
@@ -350,6 +375,8 @@ def run_real(W: World, case):
                 err = apply_op(W, c, variant)
             out.append([snapshot(W), Sym(err), len(stack), ctx_err])
             probes.append(_probe(W))
+        if probes:
+            probes[-1].append(_behaviour(W))
         return entry, out, probes
     finally:
         W.hard_reset()
@@ -364,9 +391,93 @@ def _probe(W):
             lit = type((pp.Empty() + "qq").exprs[1]).__name__
             kw = "".join(sorted(pp.Keyword("kw").identChars))
             ws = "".join(sorted(pp.Word("ab").whiteChars))
-        return [lit, kw, ws]
+        return [lit, kw, ws, [type(e).__name__ for e in W.users]]
     except Exception as e:  # noqa: BLE001
-        return ["probe-raised", type(e).__name__, ""]
+        return ["probe-raised", type(e).__name__, "", [type(e).__name__ for e in W.users]]
+
+
+def _behaviour(W):
+    """for every user expression that can parse "ab": the probe characters it really skips before its match, and
+    the ones its whitespace attributes say it skips (its own whiteChars if skipWhitespace and callPreparse;
+    MatchFirst/Or and repetitions also let their first alternative / body skip). None for expressions that cannot parse."""
+    pp = W.pp
+    multi = getattr(__import__("pyparsing.core").core, "_MultipleMatch", ())
+
+    def nullable(e, seen):
+        if id(e) in seen:
+            return False
+        seen = seen | {id(e)}
+        if isinstance(e, (pp.Opt, pp.ZeroOrMore, pp.Empty)):
+            return True
+        if isinstance(e, pp.Forward):
+            return e.expr is not None and nullable(e.expr, seen)
+        if isinstance(e, pp.ParseElementEnhance):
+            return nullable(e.expr, seen)
+        if isinstance(e, pp.And):
+            return all(nullable(x, seen) for x in e.exprs)
+        if isinstance(e, pp.ParseExpression):
+            return any(nullable(x, seen) for x in e.exprs)
+        return False
+
+    def parsable(e, seen):
+        if id(e) in seen:
+            return False
+        seen = seen | {id(e)}
+        if isinstance(e, pp.Forward):
+            return e.expr is not None and parsable(e.expr, seen)
+        if multi and isinstance(e, multi) and (e.expr.mayReturnEmpty or nullable(e.expr, frozenset())):
+            return False  # a repetition of a nullable body never terminates
+        if isinstance(e, pp.ParseElementEnhance):
+            return parsable(e.expr, seen)
+        if isinstance(e, pp.ParseExpression):
+            return bool(e.exprs) and parsable(e.exprs[0], seen)
+        return True
+
+    def own(e):
+        # _parseNoCache: preParse only `if callPreParse and self.callPreparse`; it skips only if skipWhitespace
+        return set(e.whiteChars) if e.skipWhitespace and e.callPreparse else set()
+
+    def inner(e, depth):
+        """what e.parseImpl lets its first sub-expression skip"""
+        if depth > 60:
+            return set()
+        if isinstance(e, pp.Or) and e.exprs:     # Or.parseImpl preParses itself when all alternatives callPreparse
+            mine = set(e.whiteChars) if e.skipWhitespace and all(x.callPreparse for x in e.exprs) else set()
+            return mine | eff(e.exprs[0], depth + 1)
+        if isinstance(e, pp.MatchFirst) and e.exprs:                 # alternatives are parsed with preParse
+            return eff(e.exprs[0], depth + 1)
+        if multi and isinstance(e, multi):                           # so is the body of a repetition
+            return eff(e.expr, depth + 1)
+        if isinstance(e, pp.And) and e.exprs:                        # first element: callPreParse=False
+            return inner(e.exprs[0], depth + 1)
+        if isinstance(e, pp.ParseElementEnhance) and e.expr is not None:   # wrappers, Forward: callPreParse=False
+            return inner(e.expr, depth + 1)
+        return set()
+
+    def eff(e, depth=0):
+        return own(e) | inner(e, depth)
+
+    out = []
+    with warnings.catch_warnings():
+        warnings.simplefilter("ignore")
+        for e in W.users:
+            if not parsable(e, frozenset()):
+                out.append(None)
+                continue
+            e.streamline()  # what parse_string does first; it may flatten nested Or/MatchFirst/And
+            want = sorted(eff(e) & set(PROBE_CHARS))
+            got = []
+            for ch in PROBE_CHARS:
+                try:
+                    e.parse_string(ch + ch + "ab", parse_all=True)
+                    got.append(ch)
+                except pp.ParseBaseException:
+                    pass
+                except RecursionError:
+                    got = None
+                    break
+            out.append(None if got is None else [sorted(got), want, type(e).__name__])
+    return out
 
 
 _W = None
@@ -393,6 +504,7 @@ def cmd_sexp(c):
 
 def _worker(case):
     """runs in a forked child (or inline): real execution + oracle; returns json-able dict"""
+    warnings.simplefilter("ignore")  # e.g. Forward.__del__ diagnostics, issued outside any catch_warnings block
     W = world()
     try:
         entry, tr, probes = common.with_alarm(20, run_real, W, case)
@@ -432,7 +544,14 @@ def oracle(W, case, entry, tr, probes=None):
                 {"_parse": snap[I_PSEL], "_packratEnabled": snap[I_PK], "left_recursion": snap[I_LR]},
                 "parse_selector_follows_packrat")
         if probes is not None:
-            lit, kw, ws = probes[i]
+            lit, kw, ws, kinds = probes[i][:4]
+            if len(probes[i]) > 4:
+                for j, bh in enumerate(probes[i][4]):
+                    if bh is not None and bh[0] != bh[1]:
+                        add("whitespace-skipping-differs-from-whiteChars", i,
+                            {"expression": j, "class": bh[2], "skips": bh[1]}, {"expression": j, "skips": bh[0]},
+                            "default_ws_scope_partial (behaviour, oracle only)")
+                        break
             if snap[I_LIT] < len(LIT_CLASSES) and lit != LIT_CLASSES[snap[I_LIT]]:
                 add("inline-literal-class-not-used", i, LIT_CLASSES[snap[I_LIT]], lit, "settings take effect (oracle only)")
             if isinstance(snap[I_KW], str) and kw != "".join(sorted(set(snap[I_KW]))):
@@ -522,27 +641,45 @@ def oracle(W, case, entry, tr, probes=None):
                 if snap[I_USERS] != prev[I_USERS]:
                     add("setws-changes-existing-user-expression", i, prev[I_USERS], snap[I_USERS], "default_ws_scope_partial")
                 for j, (b0, b1) in enumerate(zip(prev[I_BUILTINS], snap[I_BUILTINS])):
-                    want = [w, True] if b0[1] is True else b0
+                    want = [w, True, b0[2]] if b0[1] is True else b0
                     if b1 != want:
                         add("setws-builtin-wrong", i, {"builtin": str(W.builtins[j]), "value": want},
                             {"builtin": str(W.builtins[j]), "value": b1}, "default_ws_scope_partial")
                         break
-            elif k == "new":
+            elif k in ("new", "newfwd"):
                 w = "".join(sorted(set(prev[I_WS])))
-                if snap[I_USERS] != prev[I_USERS] + [[w, True]]:
-                    add("new-expression-wrong-whitespace", i, [w, True], snap[I_USERS][-1:], "default_ws_scope_partial")
+                want = [w, True, k == "newfwd"]
+                if snap[I_USERS] != prev[I_USERS] + [want]:
+                    add("new-expression-wrong-whitespace", i, want, snap[I_USERS][-1:], "default_ws_scope_partial")
             elif k == "copy":
                 if c[1] < len(prev[I_USERS]):
                     e = prev[I_USERS][c[1]]
-                    want = ["".join(sorted(set(prev[I_WS]))), True] if e[1] is True else e
+                    want = [e[0], e[1], False] if e[2] is True else \
+                        ["".join(sorted(set(prev[I_WS]))), True, False] if e[1] is True else e
                     if snap[I_USERS] != prev[I_USERS] + [want]:
-                        add("copy-wrong-whitespace", i, want, snap[I_USERS][-1:], "default_ws_scope_partial")
+                        add("copy-wrong-whitespace", i, {"copy of": e, "default": prev[I_WS], "copy": want},
+                            snap[I_USERS][-1:], "default_ws_scope_partial / forward_ws_scope_partial")
             elif k == "wrap":
                 if c[1] < len(prev[I_USERS]):
                     e = prev[I_USERS][c[1]]
-                    if snap[I_USERS] != prev[I_USERS] + [e]:
-                        add("composite-does-not-inherit-whitespace", i, e, snap[I_USERS][-1:], "default_ws_scope_partial")
-        if (isinstance(c, str) or c[0] != "exprws") and snap[I_USERS][:len(prev[I_USERS])] != prev[I_USERS]:
+                    if snap[I_USERS] != prev[I_USERS] + [[e[0], e[1], False]]:
+                        add("composite-does-not-inherit-whitespace", i, [e[0], e[1], False], snap[I_USERS][-1:],
+                            "default_ws_scope_partial")
+            elif k == "fwdassign":
+                n = len(prev[I_USERS])
+                valid = c[1] < n and c[2] < n and c[1] != c[2] and (
+                    probes is None or (c[1] < len(probes[i][3]) and probes[i][3][c[1]] == "Forward"))
+                if valid:
+                    src = prev[I_USERS][c[2]]
+                    want = list(prev[I_USERS])
+                    want[c[1]] = [src[0], src[1], False]
+                    if snap[I_USERS] != want:
+                        add("forward-assignment-wrong-whitespace-attributes", i,
+                            {"assigned expression": src, "forward": want[c[1]]}, {"forward": snap[I_USERS][c[1]]},
+                            "forward_ws_scope_partial")
+                elif snap[I_USERS] != prev[I_USERS]:
+                    add("user-expression-changed", i, prev[I_USERS], snap[I_USERS], "users_untouched")
+        if (isinstance(c, str) or c[0] not in ("exprws", "fwdassign")) and snap[I_USERS][:len(prev[I_USERS])] != prev[I_USERS]:
             add("user-expression-changed", i, prev[I_USERS], snap[I_USERS], "users_untouched")
         prev = snap
     return probs
@@ -566,6 +703,12 @@ def _skips(expr, body):
     return out
 
 
+def _assigned_forward(pp, e):
+    f = pp.Forward()
+    f <<= e
+    return f
+
+
 def ws_behaviour_case(chars, in_context):
     """build expressions before / after set_default_whitespace_chars(chars) (optionally inside a context that is
     then left) and observe, by parsing, which probe characters each one skips. Returns list of problems."""
@@ -577,7 +720,11 @@ def ws_behaviour_case(chars, in_context):
         orig = W.pristine["ws"]
         mk = [("Word", lambda: pp.Word("ab"), "ab"), ("Literal", lambda: pp.Literal("ab"), "ab"),
               ("And", lambda: pp.Literal("a") + pp.Literal("b"), "ab"),
-              ("Group", lambda: pp.Group(pp.Word("ab")), "ab")]
+              ("Group", lambda: pp.Group(pp.Word("ab")), "ab"),
+              ("Forward", lambda: _assigned_forward(pp, pp.Word("ab")), "ab"),
+              ("Forward<<=And", lambda: _assigned_forward(pp, pp.Literal("a") + pp.Literal("b")), "ab"),
+              ("Group(Forward)", lambda: pp.Group(_assigned_forward(pp, pp.Word("ab"))), "ab"),
+              ("Suppress(Forward)+Empty", lambda: pp.Suppress(_assigned_forward(pp, pp.Literal("ab"))) + pp.Empty(), "ab")]
         pre = [(n, f(), body) for n, f, body in mk]
         own = pp.Word("ab").set_whitespace_chars("-")
         builtin = [("common.integer", pp.common.integer, "12"), ("quoted_string", pp.quoted_string, '"q"')]
@@ -598,6 +745,7 @@ def ws_behaviour_case(chars, in_context):
         for n, e, body in pre:
             expect("pre-existing " + n, e, body, before, "existing-user-expression-changed")
             expect("copy of pre-existing " + n, e.copy(), body, inside, "copy-does-not-follow-default")
+            expect("pre-existing " + n + "('name')", e("name"), body, inside, "copy-does-not-follow-default")
         for n, e, body in pre[:2]:
             expect("new composite over pre-existing " + n, pp.Group(e), body, before, "composite-does-not-inherit-whitespace")
         expect("pre-existing with own whitespace", own, "ab", {"-"}, "existing-user-expression-changed")
@@ -655,8 +803,8 @@ def gen_facts(W):
     d, c, p = W.diag, W.compat, W.pristine
     ls = lambda xs: "[" + ", ".join(_lstr(x) for x in xs) + "]"
     bl = ",\n  ".join(
-        "⟨[" + ", ".join(_lchar(ch) for ch in sorted(w)) + "], " + ("true" if cd else "false") + "⟩"
-        for (w, cd, _s) in p["builtins"])
+        "⟨[" + ", ".join(_lchar(ch) for ch in sorted(w)) + "], " + ("true" if cd else "false") + ", " + ("true" if fe else "false") + "⟩"
+        for (w, cd, _s), fe in zip(p["builtins"], p["builtins_fwd_empty"]))
     return f"""import PPModel.Mod.Settings
 /-! GENERATED by harness/props/c19.py from the live package in /repo (class data of `__diag__` / `__compat__`,
     import-time defaults, whitespace attributes of the distinct objects in `core._builtin_exprs`).
@@ -692,9 +840,49 @@ PK_SIZES = [None, 0, 1, 5, 64, 128, 128]
 LR_CAPS = [None, None, 1, 3, 8, 0, -1]
 
 
-def gen_op(rng, W, n_users, mode_heavy=True):
+def _track(kinds, op):
+    """generator-side bookkeeping of which user expressions are Forwards"""
+    k = op[0]
+    if k == "newfwd":
+        kinds.append("fwd")
+    elif k == "new":
+        kinds.append("other")
+    elif k == "wrap" and op[1] < len(kinds):
+        kinds.append("other")
+    elif k == "copy" and op[1] < len(kinds):
+        kinds.append(kinds[op[1]])
+
+
+def gen_expr_op(rng, kinds):
+    """operations on user expressions + default-whitespace changes (dense where copies / Forwards / wrappers
+    meet set_default_whitespace_chars)"""
+    n = len(kinds)
+    fwds = [i for i, k in enumerate(kinds) if k == "fwd"]
+    k = rng.choice(["setws", "setws", "setws", "new", "newfwd", "fwdassign", "fwdassign", "wrap", "wrap", "copy",
+                    "copy", "copy", "exprws"])
+    if k == "setws" or n == 0:
+        return ["setws", rng.choice(WS_CHOICES)] if k == "setws" else rng.choice([["new"], ["newfwd"]])
+    if k == "fwdassign":
+        if not fwds or n < 2:
+            return ["newfwd"]
+        i = rng.choice(fwds)
+        j = rng.choice([x for x in range(n) if x != i])
+        return ["fwdassign", i, j]
+    if k in ("wrap", "copy"):
+        return [k, rng.randrange(n)]
+    if k == "exprws":
+        return ["exprws", rng.randrange(n), rng.choice(WS_CHOICES), rng.random() < 0.3]
+    return [k]
+
+
+def gen_op(rng, W, kinds, mode_heavy=True, expr_heavy=False):
+    n_users = len(kinds)
     r = rng.random()
     dn = list(W.diag._all_names)
+    if expr_heavy and r < 0.8:
+        return gen_expr_op(rng, kinds)
+    if not expr_heavy and r > 0.88:
+        return gen_expr_op(rng, kinds)
     if r < (0.45 if mode_heavy else 0.2):
         k = rng.choice(["packrat", "packrat", "lr", "lr", "disable", "reset"])
         if k == "packrat":
@@ -727,11 +915,11 @@ def gen_op(rng, W, n_users, mode_heavy=True):
     return [k]
 
 
-def gen_case(rng, W, malformed=False):
-    setup, users = [], 0
+def gen_case(rng, W, malformed=False, expr_heavy=False):
+    setup, users = [], []
     for _ in range(rng.choice([0, 0, 1, 2, 3, 4])):
-        op = gen_op(rng, W, users)
-        users += op[0] in ("new", "copy", "wrap")
+        op = gen_op(rng, W, users, expr_heavy=expr_heavy)
+        _track(users, op)
         setup.append(op)
     cmds, depth = [], 0
     n = rng.randint(1, 14)
@@ -749,8 +937,8 @@ def gen_case(rng, W, malformed=False):
         elif r < 0.25:
             cmds.append("restorelast")
         else:
-            op = gen_op(rng, W, users)
-            users += op[0] in ("new", "copy", "wrap")
+            op = gen_op(rng, W, users, expr_heavy=expr_heavy)
+            _track(users, op)
             cmds.append(op)
     if not malformed:
         cmds.extend([rng.choice(["exit", "exit", "exitcopy"]) for _ in range(depth)])
@@ -827,7 +1015,11 @@ def run(ctx):
         "(45% mode setters incl. force=True and bad capacities, other setters incl. unknown flag names, expression "
         "new/copy/composite/set_whitespace_chars, nested enter/exit to depth 4 incl. re-entering the last exited context "
         "object, exit through ctx.copy(), and restore() called again on an exited context) wrapped in a context; malformed stream = "
-        "unbalanced enter/exit; exhaustive stream = 5 mode entry configurations x all sequences up to length L over "
+        "unbalanced enter/exit; expr-histories = 80% operations on user expressions (leaves, MatchFirst/Or, Forward "
+        "created / assigned with <<= before or after a default-whitespace change, Group/And/Suppress/Opt/OneOrMore/"
+        "ZeroOrMore wrappers over leaves and over Forwards, copy()/expr()/expr('name'), set_whitespace_chars) and "
+        "set_default_whitespace_chars inside nested contexts, attributes compared after every command and the "
+        "characters really skipped by every parsable user expression compared with its attributes at the end; exhaustive stream = 5 mode entry configurations x all sequences up to length L over "
         "13 mode commands; non-trivial = the body changes at least one observable setting; every built-in's whiteChars "
         "is compared at every context exit (the witness of the fixed finding unsynced_builtin_whitechars_not_restored "
         "runs from the corpus as an ordinary regression case)"
@@ -849,8 +1041,9 @@ def run(ctx):
     streams = [
         ("corpus", corpus_cases),
         ("exhaustive-modes", exhaustive_mode_cases(ctx.budget(2, 3))),
-        ("histories", [gen_case(rng, W) for _ in range(ctx.budget(30000, 400000))]),
+        ("histories", [gen_case(rng, W) for _ in range(ctx.budget(24000, 300000))]),
         ("malformed", [gen_case(rng, W, malformed=True) for _ in range(ctx.budget(4000, 50000))]),
+        ("expr-histories", [gen_case(rng, W, expr_heavy=True) for _ in range(ctx.budget(12000, 120000))]),
     ]
     all_problems = []  # (case, problem)
     diff_cases = []
